@@ -11,14 +11,161 @@ Proof. unfold db_partial, overlaps. lia. Qed.
 Lemma db_within_inside fs fe qs qe : db_within fs fe qs qe = true <-> inside fs fe qs qe.
 Proof. unfold db_within, inside. lia. Qed.
 
-(** * the pinned make_feature raises on a span that ends at the view start *)
+(** * unit-step ranges *)
 
-Definition w_parent : list Z := [67; 84; 65; 71; 65; 71; 84].      (* CTAGAGT *)
-Definition w_feat : feat := mkF [(0, 2); (3, 4); (6, 7)] false.
-Definition w_view : view := mkV 2 3 1 7 0.                           (* rc()[4:5].rc() *)
+Definition zr (a b : Z) : list Z := prog a 1 (Z.to_nat (b - a)).
 
-Lemma make_feature_raises_refuted_lemma :
-  exists v f, WF v /\ Z.abs (step v) = 1 /\ feat_ok f /\
-    get_features pinned v [f] None None true = Err E_Value.
-Proof. exists w_view, w_feat. repeat split; try (vm_compute; lia); try discriminate.
-  unfold WF. cbn. lia. Qed.
+Lemma py_range_1 a b : py_range a b 1 = zr a b.
+Proof.
+  unfold py_range, zr. f_equal.
+  destruct (Z_lt_le_dec a b) as [H|H].
+  - f_equal. apply range_len_pos_char; [lia|]. right. lia.
+  - rewrite range_len_pos_empty by lia. lia.
+Qed.
+
+Lemma zr_empty a b : b <= a -> zr a b = [].
+Proof. intros H. unfold zr. replace (Z.to_nat (b - a)) with O by lia. reflexivity. Qed.
+
+Lemma zr_In a b x : In x (zr a b) <-> a <= x < b.
+Proof.
+  unfold zr. rewrite prog_In. split.
+  - intros (k & Hk & ->). lia.
+  - intros H. exists (x - a). lia.
+Qed.
+
+Lemma zr_shift a b d : map (fun x => x + d) (zr a b) = zr (a + d) (b + d).
+Proof.
+  unfold zr. replace (b + d - (a + d)) with (b - a) by lia.
+  rewrite (map_ext _ (fun i => d + i * 1)) by (intros; lia).
+  rewrite prog_map_affine. f_equal; lia.
+Qed.
+
+(** filtering a unit range with an interval test = intersecting the intervals *)
+Lemma filter_zr lo hi a b : filter (in_seg lo hi) (zr a b) = zr (Z.max a lo) (Z.min b hi).
+Proof.
+  unfold zr. remember (Z.to_nat (b - a)) as k eqn:Hk. revert a Hk.
+  induction k as [|k IH]; intros a Hk.
+  - cbn. replace (Z.to_nat (Z.min b hi - Z.max a lo)) with O by lia. reflexivity.
+  - cbn [prog filter]. rewrite (IH (a + 1)) by lia. unfold in_seg.
+    destruct ((lo <=? a) && (a <? hi)) eqn:E.
+    + replace (Z.max a lo) with a by lia. replace (Z.max (a + 1) lo) with (a + 1) by lia.
+      replace (Z.to_nat (Z.min b hi - a)) with (S (Z.to_nat (Z.min b hi - (a + 1)))) by lia.
+      reflexivity.
+    + destruct (Z_lt_le_dec a lo) as [H|H].
+      * replace (Z.max a lo) with lo by lia. replace (Z.max (a + 1) lo) with lo by lia. reflexivity.
+      * assert (hi <= a) by lia.
+        replace (Z.to_nat (Z.min b hi - Z.max (a + 1) lo)) with O by lia.
+        replace (Z.to_nat (Z.min b hi - Z.max a lo)) with O by lia. reflexivity.
+Qed.
+
+(** * contiguous views *)
+
+Definition contig (v : view) : Prop := WF v /\ Z.abs (step v) = 1 /\ 0 <= offset v.
+
+Lemma contig_cases v : contig v ->
+  (step v = 1 /\ is_reversed v = false /\ 0 <= start v <= stop v /\ stop v <= seq_len v /\
+   vlen v = stop v - start v /\ parent_start v = offset v + start v /\ parent_stop v = offset v + stop v) \/
+  (step v = -1 /\ is_reversed v = true /\ - seq_len v - 1 <= stop v <= start v /\ start v <= -1 /\
+   vlen v = start v - stop v /\ parent_start v = offset v + stop v + seq_len v + 1 /\
+   parent_stop v = offset v + start v + seq_len v + 1).
+Proof.
+  intros ((Hn & [(Hs & Hb & He)|(Hs & Hb & He)]) & Habs & Hoff).
+  - left. assert (E : step v = 1) by lia. unfold is_reversed, vlen, parent_start, parent_stop, is_reversed.
+    rewrite E. cbn. repeat split; try lia.
+  - right. assert (E : step v = -1) by lia. unfold is_reversed, vlen, parent_start, parent_stop, is_reversed.
+    rewrite E. cbn. repeat split; try lia.
+Qed.
+
+Lemma vlen_contig v : contig v -> vlen v = parent_stop v - parent_start v.
+Proof. intros H. destruct (contig_cases v H) as [H1|H1]; lia. Qed.
+
+(** plus-orientation relative coordinate of an absolute coordinate *)
+Lemma rel_coord_contig v x : contig v -> 0 < vlen v -> 0 <= x ->
+  rel_coord v x = Ok (x - parent_start v).
+Proof.
+  intros Hc Hlen Hx. unfold rel_coord, relative_position, bind.
+  replace (vlen v =? 0) with false by lia. replace (x <? 0) with false by lia.
+  destruct (contig_cases v Hc) as [(Es & Er & H1 & H2 & H3 & H4 & H5)|(Es & Er & H1 & H2 & H3 & H4 & H5)];
+    rewrite Er, Es, H4.
+  - rewrite Z.mod_1_r, Z.div_1_r. cbn; f_equal; lia.
+  - replace ((seq_len v - x + offset v + start v + 1) mod -1) with 0 by lia.
+    cbn [Z.eqb orb Z.abs Pos.eqb]. rewrite Z.div_1_r, H3; f_equal; lia.
+Qed.
+
+Definition shift_spans (d : Z) (l : list (Z * Z)) : list (Z * Z) := map (fun p => (fst p - d, snd p - d)) l.
+
+Lemma spans_ok_weaken lo lo' l : lo' <= lo -> spans_ok lo l -> spans_ok lo' l.
+Proof. destruct l as [|[a b] r]; cbn; [tauto|]. intros H (H1 & H2 & H3). repeat split; try assumption; lia. Qed.
+
+Lemma rel_spans_contig v l lo : contig v -> 0 < vlen v -> 0 <= lo -> spans_ok lo l ->
+  rel_spans v l = Ok (shift_spans (parent_start v) l).
+Proof.
+  intros Hc Hlen. revert lo. induction l as [|[a b] r IH]; intros lo Hlo Hok; [reflexivity|].
+  cbn in Hok. destruct Hok as (H1 & H2 & H3).
+  cbn [rel_spans]. rewrite !rel_coord_contig by (try assumption; lia). cbn [bind].
+  rewrite (IH b) by (try assumption; lia). reflexivity.
+Qed.
+
+(** * make_feature at the level of positions *)
+
+(** the plus-orientation relative positions a map covers, in map order *)
+Definition mpos (m : list span) : list Z :=
+  flat_map (fun s => match s with SSpan a b => zr a b | SLost _ => [] end) m.
+
+Definition span_in (n : Z) (s : span) : Prop :=
+  match s with SSpan a b => 0 <= a <= b /\ b <= n | SLost _ => True end.
+
+(** relative spans intersected with the view [0, n) *)
+Definition rpositions (n : Z) (sp : list (Z * Z)) : list Z :=
+  flat_map (fun ab => zr (Z.max (fst ab) 0) (Z.min (snd ab) n)) sp.
+
+Lemma mpos_app m1 m2 : mpos (m1 ++ m2) = mpos m1 ++ mpos m2.
+Proof. unfold mpos. apply flat_map_app. Qed.
+
+Lemma sfl_step fx n s e rest m : s < e -> 0 <= n ->
+  sfl_loop n (match clamp_span fx n (s, e) with Some q => q :: rest | None => rest end) = Ok m ->
+  exists m1 m2, m = m1 ++ m2 /\ sfl_loop n rest = Ok m2 /\
+    mpos m1 = zr (Z.max s 0) (Z.min e n) /\ Forall (span_in n) m1.
+Proof.
+  intros Hse Hn. unfold clamp_span.
+  replace (Z.min s e) with s by lia. replace (Z.max s e) with e by lia.
+  assert (Hdrop : sfl_loop n rest = Ok m -> Z.min e n <= Z.max s 0 ->
+     exists m1 m2, m = m1 ++ m2 /\ sfl_loop n rest = Ok m2 /\
+       mpos m1 = zr (Z.max s 0) (Z.min e n) /\ Forall (span_in n) m1).
+  { intros H Hle. exists [], m. repeat split; [assumption| |constructor].
+    cbn. symmetry. apply zr_empty. lia. }
+  assert (Hkeep : forall s' e', 0 <= s' <= e' -> s' <= n -> s' = Z.max s 0 \/ Z.min e' n <= s' /\ Z.min e n <= Z.max s 0 ->
+     Z.min e' n = Z.min e n \/ Z.min e' n <= s' /\ Z.min e n <= Z.max s 0 ->
+     sfl_loop n ((s', e') :: rest) = Ok m ->
+     exists m1 m2, m = m1 ++ m2 /\ sfl_loop n rest = Ok m2 /\
+       mpos m1 = zr (Z.max s 0) (Z.min e n) /\ Forall (span_in n) m1).
+  { intros s' e' Hs' Hsn Hs'' He''. cbn [sfl_loop].
+    replace (s' >? e') with false by lia. replace (Z.min s' e' <? 0) with false by lia.
+    replace (s' >? n) with false by lia. cbn [orb].
+    destruct (sfl_loop n rest) as [m2|c] eqn:E2; cbn [bind]; [|discriminate].
+    assert (Hz : zr s' (Z.min e' n) = zr (Z.max s 0) (Z.min e n)).
+    { destruct Hs'' as [->|[H1 H2]].
+      - destruct He'' as [->|[H3 H4]]; [reflexivity|]. rewrite !zr_empty by lia. reflexivity.
+      - rewrite !zr_empty by lia. reflexivity. }
+    destruct (e' >? n) eqn:E3; intros [= <-].
+    - exists [SSpan s' (Z.min e' n); SLost (Z.abs (e' - n))], m2. repeat split.
+      + cbn. rewrite app_nil_r. exact Hz.
+      + repeat constructor; lia.
+    - exists [SSpan s' e'], m2. repeat split.
+      + cbn. rewrite app_nil_r. replace (Z.min e' n) with e' in Hz by lia. exact Hz.
+      + repeat constructor; lia. }
+  destruct ((s <? 0) && (0 <? e)) eqn:C1.
+  { apply Hkeep; lia. }
+  destruct ((s <? n) && (n <? e)) eqn:C2.
+  { apply Hkeep; lia. }
+  destruct (fx_bound fx).
+  - destruct ((s =? e) || (s >=? n) || (e <=? 0)) eqn:C3.
+    + intros H. apply Hdrop; [assumption|lia].
+    + apply Hkeep; lia.
+  - destruct ((s =? e) || (s >? n) || (e <? 0)) eqn:C3.
+    + intros H. apply Hdrop; [assumption|lia].
+    + destruct (Z_lt_le_dec s 0) as [Hneg|Hpos].
+      * (* the span ends exactly at the view start: the loop raises *)
+        cbn [sfl_loop]. replace (Z.min s e <? 0) with true by lia. rewrite orb_true_r. discriminate.
+      * apply Hkeep; lia.
+Qed.
